@@ -530,3 +530,35 @@ Definition h_ok_node (g : gr) (p : N * natt) : bool :=
   ((dflt (a_hc (snd p)) 0 =? 0) &&
    match heavy_nbrs g (fst p) with [] => true | [x] => has_node g x | _ => false end).
 Definition h_dom (g : gr) : bool := forallb (h_ok_node g) (gnodes g).
+
+(** domain of the GML round trip: a reaction-centre-shaped ITS graph — unique node ids, one edge entry per
+    unordered pair, no self loops, edge end points are nodes; every node carries typesGH whose two halves name
+    the same element (a symbol in [A-Za-z*]+), and its own element / charge are those of the reactant half (as
+    ITSGraph and get_rc write them); every edge carries a (before, after) pair of orders from
+    {absent, 1, 1.5, 2, 3}, not both absent, and standard_order = before - after *)
+Fixpoint nodupb (l : list N) : bool := match l with [] => true | x :: r => negb (mem x r) && nodupb r end.
+Fixpoint uniq_pairs (es : list (N * N * eatt)) : bool :=
+  match es with
+  | [] => true
+  | (a, b, _) :: r => match find_edge a b r with None => uniq_pairs r | Some _ => false end
+  end.
+Definition elem_ok (e : str) : bool := match e with [] => false | _ => forallb is_elem_char e end.
+Definition ord_ok (o : Z) : bool := (o =? 0) || (o =? 2) || (o =? 3) || (o =? 4) || (o =? 6).
+Definition its_node_ok (a : natt) : bool :=
+  match a_tgh a, a_el a, a_ch a with
+  | Some ((e, _, _, q), (e', _, _, _)), Some el, Some ch => str_eqb el e && str_eqb e' e && elem_ok e && (ch =? q)
+  | _, _, _ => false
+  end.
+Definition its_edge_ok (g : gr) (e : N * N * eatt) : bool :=
+  let '(u, v, x) := e in
+  negb (N.eqb u v) && has_node g u && has_node g v &&
+  match e_ord x, e_std x with
+  | Some (OP a b), Some s => ord_ok a && ord_ok b && negb ((a =? 0) && (b =? 0)) && (s =? a - b)
+  | _, _ => false
+  end.
+Definition its_ok (g : gr) : bool :=
+  nodupb (node_ids g) && uniq_pairs (gedges g) && forallb (fun p => its_node_ok (snd p)) (gnodes g)
+  && forallb (its_edge_ok g) (gedges g).
+(** what a node of the ITS read back from GML looks like: hcount 0, aromatic False, atom_map = node id *)
+Definition gml_node (n : N) (e : str) (q q' : Z) : natt :=
+  NA (Some e) (Some false) (Some 0) (Some q) (Some (Z.of_N n)) (Some ((e, false, 0, q), (e, false, 0, q'))).
